@@ -12,3 +12,5 @@ def run(ck):
     image.r15_6_free_while_linked(ck, P)
     glyph.r5_component_alpha_siblings(ck, P)
     glyph.r6_arguments_kept_whole(ck, P)
+    glyph.r7_neighbour_in_probe_direction(ck, P)
+    glyph.r8_thaw_thresholds(ck, P)
